@@ -221,6 +221,7 @@ pub struct Ctx {
     pub caps: Vec<String>,
     pub started: std::time::Instant,
     pub deadline: Option<std::time::Duration>,
+    pub trace_cases: bool,
 }
 
 impl Ctx {
@@ -284,6 +285,7 @@ impl Ctx {
             caps: Vec::new(),
             started: std::time::Instant::now(),
             deadline,
+            trace_cases: std::env::var_os("VH_TRACE_CASES").is_some(),
         }
     }
 
@@ -332,6 +334,11 @@ impl Ctx {
         DESC_LEN.store(n, Ordering::SeqCst);
         CUR_CASE.store(idx, Ordering::SeqCst);
         CASE_EPOCH.fetch_add(1, Ordering::SeqCst);
+        if self.trace_cases {
+            // lets an external tool (valgrind) attribute its reports to a case
+            let s = format!("@@CASE {idx} {}\n", self.cur_desc.replace('\n', " "));
+            write_all_fd2(s.as_bytes());
+        }
         self.evaluations += 1;
         if self.samples.len() < self.max_samples && (idx % 7 == 0 || self.samples.is_empty()) {
             let d = self.cur_desc.clone();
